@@ -74,7 +74,13 @@ func under(t *Tape, f func(r *OpResult)) (res OpResult) {
 		res.Out = since(m)
 		if r := recover(); r != nil {
 			if s, ok := r.(sentinel); ok {
-				panic(s)
+				if s != sentRunaway {
+					panic(s)
+				}
+				res.Kind = "runaway"
+				res.Panic = "the operation kept reading the random source without end (harness limit)"
+				res.Pw, res.P = nil, nil
+				return
 			}
 			res.Kind = "panic"
 			res.Panic = fmt.Sprint(r)
